@@ -9,10 +9,19 @@ class Writer:
     else:
       return str(self.get(fieldname))
 
-  def to_list(self):
+  def to_str(self, add_virtual_commentary=True):
+    """String representation of the comment line (same as str()).
+
+    The parameter is accepted for compatibility with the generic to_str()
+    method of Line, and has no effect.
+    """
+    return str(self)
+
+  def to_list(self, add_virtual_commentary=True):
     """Convert the content of the comment line to a list.
 
     The generic to_list() method of Line is overwritten,
     in order to support an optional spacer specification.
+    The parameter is accepted for compatibility and has no effect.
     """
     return ["#", self.content, self.spacer]
